@@ -84,6 +84,10 @@ CLAIMS = {
    "Decides structural necessary conditions for text to survive both codecs byte for byte: text already decoded by the JSON parser (fastjson GetStringBytes/StringBytes) is never handed to a JSON parser or a quote-stripping unmarshal method again, and never passes a byte-rewriting function (built on bytes/strings Replace*/Trim*/...) on its way into the stored value; the stored text reaches the escaper unrewritten; the gob forms put tag and text into the key and value slots and read them back from the same slots. Rewriters/re-parsers are discovered structurally. NOT decided: equality for concrete strings, the escaper's correctness beyond its tables (C02).",
    "Trusted: go/ssa; fastjson GetStringBytes returns the decoded string value.",
    "typestate / taint flow of decoded text on SSA (re-parse and rewrite sinks) + slot pairing", "3/C06"),
+ "C04": ("other",
+   "Decides structural clauses of decoder totality over the decode closure D (~400 package functions reachable from the 73 Unmarshal*/GobDecode entry points found by signature): every index/slice expression in D is in bounds — the Go compiler's prove pass reports which bounds checks it could not eliminate and each such site inside D must be discharged by the checker's symbolic range rules on SSA, else it is a finding; D has no explicit panic, single-result type assertion or division by a non-constant; every loop in D is a range loop or a counted loop with constant step towards an invariant bound; every cycle of the call graph among input-carrying functions contains a descent to a strictly smaller sub-value (depth bounded by fastjson's nesting limit and the input length); every make in D is sized by a constant or an existing length. NOT decided: panics inside dependencies, nil dereference of non-item pointers, quadratic de-duplication time, the follow-up-operations clause beyond C20/C12.",
+   "Trusted: the Go compiler's prove pass for sites it reports proven; go/ssa; c04.go range rules; fastjson MaxDepth.",
+   "compiler prove pass (BCE report) + symbolic range rules on SSA + loop-shape, recursion-descent and allocation-size rules", "3/C04"),
 }
 
 NOT_YET = "check not yet built in this round (planned, see DESIGN.md section 3); not claimed until it runs clean"
@@ -138,6 +142,7 @@ def main():
     print(f"MANIFEST.json: {len(checks)} checks, {len(na)} not_applicable")
 
 NA_REASONS = {}
+
 
 if __name__ == "__main__":
     main()
